@@ -236,8 +236,15 @@ func (x *executor) runOps(task int, ops []Op) {
 // locks another task may hold); everything is checked again after the run.
 func (x *executor) checkStable(task, opIdx int, inFlight bool) {
 	ts := &x.ts[task]
-	simrt.Quiet()
-	defer simrt.Loud()
+	if inFlight {
+		// between the operations of a run with several tasks only plain memory is
+		// compared, without yielding and without consuming the tape
+		simrt.Quiet()
+		defer simrt.Loud()
+	}
+	// Otherwise re-reading a held value may run library code (an informer asked
+	// again, an AST walked through its containers): it runs as ordinary simulated
+	// code of this task - the library may start goroutines or select in there.
 	for j := range ts.held {
 		h := &ts.held[j]
 		if h.live == nil {
@@ -325,12 +332,21 @@ func Execute(w *World, tape *simrt.Tape, gold []*Golden, onFatal func(int, strin
 	simrt.Begin(cfg)
 
 	// shared objects are built before the tasks start (registration is not in
-	// C11's list of concurrently callable operations)
+	// C11's list of concurrently callable operations) - as a one-task phase of the
+	// simulated run, not outside it: registration runs library code too
+	var sharedObjs []int
 	for i := range w.Objects {
 		if w.Shared != nil && w.Shared[i] {
-			op := Op{Obj: i, Kind: "build"}
-			x.insts[i].build(&op)
+			sharedObjs = append(sharedObjs, i)
 		}
+	}
+	if len(sharedObjs) > 0 {
+		simrt.Run([]func(){func() {
+			for _, i := range sharedObjs {
+				op := Op{Obj: i, Kind: "build"}
+				x.insts[i].build(&op)
+			}
+		}})
 	}
 
 	fns := make([]func(), len(w.Tasks))
@@ -340,10 +356,13 @@ func Execute(w *World, tape *simrt.Tape, gold []*Golden, onFatal func(int, strin
 	}
 	simrt.Run(fns)
 
-	// after the run: everything once more, including ASTs and shared objects
-	for t := range x.ts {
-		x.checkStable(t, -1, false)
-	}
+	// after the tasks: everything once more, including ASTs and shared objects -
+	// again as a one-task phase of the simulated run
+	simrt.Run([]func(){func() {
+		for t := range x.ts {
+			x.checkStable(t, -1, false)
+		}
+	}})
 	res.Stats = simrt.GetStats()
 	res.Verdict = simrt.Verdict()
 	res.EventHash = res.Stats.EventHash
